@@ -294,13 +294,14 @@ type oaParam struct {
 func (p oaParam) key() string { return p.In + ":" + p.Name }
 
 type c07Expect struct {
-	params   []oaParam          // must be documented
-	optional map[string]oaParam // may be documented (credentials, headers the specification ignores)
-	place    map[string]*Place
-	body     bool
-	codes    map[string]string // code -> "success" | "error"
-	codesOK  bool              // false: some declared error has no designed HTTP response, extra codes not asserted
-	security []string          // requirement descriptors, sorted
+	params     []oaParam          // must be documented
+	optional   map[string]oaParam // may be documented (credentials, headers the specification ignores)
+	place      map[string]*Place
+	body       bool
+	codes      map[string]string // code -> "success" | "error"
+	reqUnknown map[string]bool   // parameters whose required flag is not asserted (required + default)
+	codesOK    bool              // false: some declared error has no designed HTTP response, extra codes not asserted
+	security   []string          // requirement descriptors, sorted
 }
 
 // fullPathOf is the designed full path of a route: API path + service path + route path; a
@@ -326,7 +327,7 @@ func c07Expected(s *Svc, m *spec.Method, full string, v2 bool) *c07Expect {
 	hh.Path = full
 	mm.HTTP = &hh
 	l := RequestLayout(&spec.Spec{Types: sp.Types}, &spec.Service{}, &mm)
-	ex := &c07Expect{optional: map[string]oaParam{}, place: map[string]*Place{}, codes: map[string]string{}, codesOK: true}
+	ex := &c07Expect{optional: map[string]oaParam{}, place: map[string]*Place{}, reqUnknown: map[string]bool{}, codes: map[string]string{}, codesOK: true}
 	bodyPlaces := 0
 	for _, p := range l.Places {
 		cred := p.A != nil && p.A.Sec != ""
@@ -341,6 +342,11 @@ func c07Expected(s *Svc, m *spec.Method, full string, v2 bool) *c07Expect {
 		}
 		op := oaParam{Name: p.Wire, In: p.Loc, Required: p.Loc == spec.LocPath || p.Req == "required"}
 		ex.place[op.key()] = p
+		if p.Loc != spec.LocPath && reqLabel(sp, m, p) == "required+default" {
+			// listed in Required and given a default: the statement does not say which of the two
+			// decides; C14 compares the document with what the server does when it is absent
+			ex.reqUnknown[op.key()] = true
+		}
 		switch {
 		case v2 && p.Loc == spec.LocCookie:
 			// Swagger 2.0 has no cookie parameters: nothing can be demanded
@@ -581,6 +587,10 @@ func c07Method(s *Svc, m *spec.Method, r *MethodResult, count bool) []c07Finding
 				case !ok:
 					add(fmt.Sprintf("C07 param-missing-in-doc doc=%s loc=%s req=%s", dv.name, e.In, p.Req),
 						fmt.Sprintf("%s %s: the design carries attribute %q in %s %q but the document has no such parameter", o.Verb, o.Path, p.Attr, e.In, e.Name))
+				case ex.reqUnknown[e.key()]:
+					if count {
+						r.note("parameters_required_and_default_whose_required_flag_is_left_to_C14", 1)
+					}
 				case g.Required != e.Required:
 					add(fmt.Sprintf("C07 param-required-mismatch doc=%s loc=%s req=%s documented=%v", dv.name, e.In, p.Req, g.Required),
 						fmt.Sprintf("%s %s: parameter %s %q is %s in the design (the server requires it: %v) but documented required=%v", o.Verb, o.Path, e.In, e.Name, p.Req, e.Required, g.Required))
@@ -710,4 +720,19 @@ func C07Static(corpusDir, design string, sp *spec.Spec) []*MethodResult {
 		}
 	}
 	return out
+}
+
+// reqLabel is the requiredness class of a place for signatures: Layout's "required", "optional",
+// "default", and "required+default" for an attribute that is both listed in Required and given
+// a default value.
+func reqLabel(sp *spec.Spec, m *spec.Method, p *Place) string {
+	if p == nil {
+		return "none"
+	}
+	if p.A != nil && p.A.HasDefault && m.Payload != nil {
+		if e := sp.Eff(m.Payload); spec.IsRequired(e.Required, p.Attr) {
+			return "required+default"
+		}
+	}
+	return p.Req
 }
